@@ -10,7 +10,7 @@ from cpverif import spec as S
 from cpverif import strategies as G
 from cpverif.core import Ctx, Part, hyp_part
 from cpverif.lib import L
-from cpverif.model import ref_nps, td_us
+from cpverif.model import TempoModel, ref_nps, td_us
 
 RULE = (
     "Hypothesis charts with 1-2 tracks (0..25 notes, sustains, multi-segment tempo maps), absent tracks "
@@ -19,7 +19,8 @@ RULE = (
     "symbolically relative to the notes: exactly a note's tick / timestamp / sustain end, +-1 tick / "
     "+-1 us around them, equal bounds, reversed bounds, bounds outside all notes, absolute values. "
     "Oracle: count{start <= note.timestamp <= end} / (end-start) seconds, tick bounds converted with "
-    "the public un-hinted query, default start 0, default end max(end_timestamp); math.isclose "
+    "the public un-hinted query AND required to agree with the exact rational tempo model of the written map "
+    "(C01's tolerance), bounds also on / around the last tempo changes of short and LONG maps, default start 0, default end max(end_timestamp); math.isclose "
     "rel_tol 1e-12; ValueError for non-positive length, absent track, note-less track. Metamorphic: "
     "the tick-bounded call equals the time-bounded call with the converted bounds. Non-trivial iff >= 1 "
     "bound coincides exactly with a note time and >= 1 note is excluded; distinct = distinct (chart, call)."
@@ -36,6 +37,10 @@ _bound = st.one_of(
     st.tuples(st.just("abs"), st.integers(0, 10 ** 7), st.just(0)),
     st.tuples(st.just("zero"), st.just(0), st.just(0)),
     st.tuples(st.just("far"), st.integers(1, 10 ** 6), st.just(0)),
+    # exactly on an anchor's tick / time (anchors are literal times that pin nothing in the tempo map)
+    st.tuples(st.just("anchor"), st.integers(0, 5), st.sampled_from([0, 0, 1])),
+    # around a tempo change, counted from the LAST one (v = 0): on it, just before, just after, well after
+    st.tuples(st.just("tempo"), st.sampled_from([0, 0, 0, 1, 2, 5, 40]), st.sampled_from([0, -1, 1, 50])),
 )
 _call = st.builds(
     lambda form, a, b, trk, same, rev: {"form": form, "a": list(a), "b": list(b), "track": trk,
@@ -58,12 +63,26 @@ def strat_cases(ctx: Ctx):
         lambda c, calls: {"spec": c["spec"], "max_tick": c["max_tick"], "calls": calls},
         st.integers(0, 5).flatmap(lambda mn: G.chart_specs(
             max_segments=ctx.pick(6, 16), max_tracks=2, min_tracks=1, max_notes=25, max_events=1,
-            max_ts=1, max_anchors=0, min_notes=min(mn, 3), long_one_in=4)).flatmap(_maybe_unsorted),
+            max_ts=1, max_anchors=3, min_notes=min(mn, 3), long_one_in=4)).flatmap(_maybe_unsorted),
         st.lists(_call, min_size=8, max_size=14))
 
 
-def _resolve(bound, notes, bpm, as_tick: bool, max_tick: int):
+def _resolve(bound, notes, bpm, as_tick: bool, max_tick: int, anchors=()):
     kind, v, delta = bound
+    if kind == "anchor":
+        if not anchors:
+            kind = "zero"
+        else:
+            a = anchors[v % len(anchors)]
+            if as_tick:
+                return max(0, min(a.tick + delta, max_tick))
+            return max(a.timestamp + timedelta(microseconds=delta), timedelta(0))
+    if kind == "tempo":
+        evs = list(bpm.events)
+        ev = evs[max(0, len(evs) - 1 - v)]
+        if as_tick:
+            return max(0, min(ev.tick + delta, max_tick))
+        return max(ev.timestamp + timedelta(microseconds=delta), timedelta(0))
     if kind == "zero" or (kind in ("note", "end") and not notes):
         return 0 if as_tick else timedelta(0)
     if kind == "abs":
@@ -91,6 +110,7 @@ def check_case(ctx: Ctx, case) -> None:
         ctx.fail("chart-parses", f"well-formed chart rejected: {type(e).__name__}: {e}", rc0)
         return
     bpm = chart.sync_track.bpm_events
+    tm = TempoModel(spec["res"], [(x[0], x[2]) for x in spec["sync"] if x[1] == "B"])
     # a second, different chart kept alive and used between the calls (charts share no state)
     try:
         shadow = L.parse(S.render({"res": spec["res"] + 1, "sync": [[0, "TS", 4], [0, "B", 150000], [9, "B", 99000]],
@@ -122,8 +142,9 @@ def check_case(ctx: Ctx, case) -> None:
                 continue
         form = call["form"]
         as_tick = form.startswith("tick")
-        a = _resolve(call["a"], notes, bpm, as_tick, case["max_tick"])
-        b = _resolve(call["b"], notes, bpm, as_tick, case["max_tick"])
+        anchors = list(chart.sync_track.anchor_events)
+        a = _resolve(call["a"], notes, bpm, as_tick, case["max_tick"], anchors)
+        b = _resolve(call["b"], notes, bpm, as_tick, case["max_tick"], anchors)
         if call["same"]:
             b = a
         if not call["reverse"] and form in ("tick_tick", "time_time") and b < a:
@@ -153,6 +174,15 @@ def check_case(ctx: Ctx, case) -> None:
             except Exception as e:  # noqa: BLE001
                 ctx.fail("query-answers", f"tick conversion raised {type(e).__name__}: {e}", rc)
                 continue
+            if as_tick:
+                # the interval a tick bound stands for is the exact tempo map's, not whatever the
+                # library's own lookup says (same tolerance as C01: half a microsecond per segment)
+                bad = [(t, us) for t, us in ((a, s_us), (b, e_us)) if us is not None and not tm.ok(us, t)]
+                if bad:
+                    t, us = bad[0]
+                    ctx.fail("tick-bound-time", f"tick bound {t} stands for {float(tm.exact_us(t)):.3f} us in "
+                                                f"the tempo map but is taken as {us} us", rc)
+                    continue
             if e_us is None:
                 e_us = max(td_us(n.end_timestamp) for n in notes)
             starts = [td_us(n.timestamp) for n in notes]
